@@ -16,6 +16,8 @@ A property module under /verif/props defines SPEC, a dict with:
   signature            optional function(verdict_detail, obs_line) -> str used to match known findings
   release              build the harness in release mode as well (overflow semantics) [optional]
   extra                optional function(ctx) -> list of extra violations / notes (property specific)
+  escalate             factor by which the quick tier's case count grows (thorough-tier generator) when the source
+                       differs from pins/source.json (default 4; 0 = never)
 """
 import glob
 import json
@@ -201,7 +203,17 @@ def _run_one(spec, tier, seed, replay=None):
             inputs = load_corpus(spec)
             ncorp = len(inputs)
             n = spec["n"][tier]
-            rc, out = C.sh(_harness_cmd(spec, hb["path"], ["gen", "--seed", str(seed), "--n", str(n), "--tier", tier]),
+            gen_tier = tier
+            # the code differs from the pinned tree (pins/source.json): not a violation, but the moment to look
+            # harder - quick tier then draws from the thorough-tier generator, `escalate` times as many cases
+            changed = C.source_changed(pid) if tier == "quick" else None
+            if changed:
+                fac = spec.get("escalate", 4)
+                n = min(int(spec["n"]["thorough"]), int(n * fac)) if fac else n
+                gen_tier = "thorough" if fac else tier
+                notes.append("source differs from the pinned tree in %s: search escalated to %d cases of the thorough-tier generator"
+                             % (", ".join(changed[:6]), n))
+            rc, out = C.sh(_harness_cmd(spec, hb["path"], ["gen", "--seed", str(seed), "--n", str(n), "--tier", gen_tier]),
                            timeout=1800)
             if rc != 0:
                 infra_errors.append("harness gen failed: " + out[-2000:])
